@@ -223,34 +223,9 @@ class Evaluator:
             return t
         return U.const_obj(pv)
 
-    # ---- python % with Python's sign convention
     def pymod(self, a, m, pc, node):
-        c = self.c
         self.side('zerodiv', AND(pc, m == 0), node)
-        idx = c.new_int('mod')
-        B = self.U.bound
-        # sound lemmas (hold for Python's %)
-        c.extra.append(z3.Implies(m > 0, z3.And(idx >= 0, idx < m)))
-        c.extra.append(z3.Implies(m < 0, z3.And(idx <= 0, idx > m)))
-        c.extra.append(z3.Implies(z3.And(m > 0, a >= 0, a < m), idx == a))
-        if z3.is_int_value(m):
-            k = m.as_long()
-            if k > 0:
-                c.extra.append(idx == a % k)
-            elif k < 0:
-                c.extra.append(idx == -((-a) % (-k)))
-        elif B is not None:
-            rng = B + 2
-            for k in range(-rng, rng + 1):
-                if k > 0:
-                    c.extra.append(z3.Implies(m == k, idx == a % k))
-                elif k < 0:
-                    c.extra.append(z3.Implies(m == k, idx == -((-a) % (-k))))
-            c.inexact.append(('mod-range', rng))
-        else:
-            q = c.new_int('quo')
-            c.extra.append(z3.Implies(m != 0, a == q * m + idx))
-        return idx
+        return self.U.pymod(a, m)
 
     # ---- expressions
     def eval(self, node, pc) -> V:
@@ -304,7 +279,11 @@ class Evaluator:
         raise Unsupported(f'unary {type(node.op).__name__}')
 
     def e_IfExp(self, node, pc):
-        t = self.truth(self.eval(node.test, pc), node.test)
+        t = z3.simplify(self.truth(self.eval(node.test, pc), node.test))
+        if z3.is_true(t):
+            return self.eval(node.body, pc)
+        if z3.is_false(t):
+            return self.eval(node.orelse, pc)
         a = self.eval(node.body, AND(pc, t))
         b = self.eval(node.orelse, AND(pc, z3.Not(t)))
         if isinstance(a, VConc) and not isinstance(b, VConc):
@@ -596,7 +575,7 @@ class Evaluator:
         # Is[f] validators and other opaque user callables on one symbolic object
         if callable(fn) and len(args) == 1 and not kwargs and isinstance(args[0], VObj):
             c.calls.append((pc, fn, args, kwargs))
-            return VBool(U.pred(fn)(args[0].t))
+            return VBool(U.pred(resolve_user_callable(fn))(args[0].t))
         raise Unsupported(f'call of {name or fn!r}: {self.where(node)}')
 
     def call_method(self, f, args, kwargs, pc, node):
@@ -623,6 +602,23 @@ class Evaluator:
             if name == 'get' and len(args) >= 1:
                 raise Unsupported('pith.get()')
         raise Unsupported(f'method .{name} on {type(recv).__name__}')
+
+
+def resolve_user_callable(fn, depth=2):
+    """beartype wraps the callable given to Is[...] in a bool()-coercing closure; find the
+    harness predicate function inside (marked with ``_pred``)."""
+    if getattr(fn, '_pred', None) is not None or depth == 0:
+        return fn
+    for cell in getattr(fn, '__closure__', None) or ():
+        try:
+            v = cell.cell_contents
+        except ValueError:
+            continue
+        if callable(v):
+            r = resolve_user_callable(v, depth - 1)
+            if getattr(r, '_pred', None) is not None:
+                return r
+    return fn
 
 
 class VBoundKeys(V):
